@@ -9,6 +9,15 @@ checks = {
  "C03": dict(level=EXPL, ref="§C03", tech="bounded-exhaustive enumeration (operators x boundary grid^2 fold table; trees/patterns with probes x 8 minify subsets), differential execution in V8",
    text="complete constant-folding table over a 46-56 value boundary grid for all binary/unary/conditional operators compared with V8's own evaluation; expression trees, statement skeletons and ~560 minifier trigger patterns with side-effect probes under 8 minify flag subsets (+define/pure/drop/drop-labels against generator-side references)",
    note="V8 (Node 20) is the reference semantics; documented minifier assumptions (function names without keep-names, TDZ) are not observed"),
+ "C05": dict(level=EXPL, ref="§C05", tech="bounded-exhaustive enumeration of lowerable constructs in all positions x targets, differential execution (native Node 22 vs lowered output)",
+   text="every operator/construct of the table in every statement context, lowering-relevant (parent,slot,child) pairs, ~130 lowering templates x operand trees; each program runs natively in Node 22 and its esbuild output for es2015..es2022/esnext/minified/each single feature unsupported runs in the same engine; call logs (universal logging proxies), this/arguments/super observations, results and thrown classes must agree; ten genuine lowering deviations are recorded as known findings with exact classifiers",
+   note="Node 22 is the native reference; microtask turn counts, ES5, decorators and `using` excluded; meta-object-protocol details (ownKeys order, .call lookups on proxies) are not observed"),
+ "C14": dict(level=EXPL, ref="§C14", tech="bounded-exhaustive enumeration of feature programs x targets; the target engine itself (7 installed Node versions) parses every output; lexical detectors for overrides",
+   text="operator table x contexts, lowering templates, statement hazards and minifier trigger patterns x {node10..node22 exact versions, es2015..es2024} x {plain, minify, iife, esm}: the named engine (witness engine for ES years) must accept each output; supported:false => feature absent lexically, all-supported es2015 == esnext; bundles with helpers/wrappers per target x format x minify",
+   note="ES-year targets are witnessed by the oldest installed engine implementing at least that year; es2015-17 partly by lexical detectors"),
+ "C16": dict(level=EXPL, ref="§C16", tech="bounded-exhaustive enumeration of byte/token words, corpus single-token mutants, nesting words and config-file matrices; subprocess workers with journal",
+   text="all byte words<=3 over 38 byte classes x 7 loaders, token words, every test-suite input literal under every loader plus its single-token deletions/duplications/swaps, nesting words w^n, source-map payload grammar, package.json/tsconfig.json key x value-kind matrix through real bundles: the call returns, no panic/internal-error text, worker processes survive, canary build succeeds",
+   note="inputs above tens of kilobytes / nesting above 20000 not explored; hang = no answer within 120 s"),
  "C13": dict(level=EXPL, ref="§C13", tech="bounded-exhaustive enumeration of token words (small-scope model checking of the lexer/parser/printer state machine) with V8 as reference grammar",
    text="all token words up to length 3 (thorough 4) over a 100+ token context-sensitive alphabet; each word is run through the real esbuild and decided against V8 (accept/reject agreement, output validity per goal under 5 configurations, fixed point T(T(x))==T(x))",
    note="V8 of Node 20 is the reference grammar; inputs V8 rejects are outside the quantifier"),
